@@ -76,6 +76,9 @@ func (e *GuardEngine) Ctx(fn *ssa.Function) *GuardCtx {
 type Outcome struct {
 	OK    bool
 	Trail []string // how it was discharged / where it failed
+	// Unsure: not discharged, but for a reason that is a limit of the analysis, not evidence of a
+	// missing guard (e.g. a table entry whose stored value decides whether its key is ever used)
+	Unsure bool
 }
 
 var rootTok = regexp.MustCompile(`‹\^?[^‹›]*›`)
@@ -206,17 +209,17 @@ func (e *GuardEngine) Discharge(fn *ssa.Function, goal Poly, ne bool, at ssa.Ins
 	where := fmt.Sprintf("%s@%s", FuncName(fn), e.p.InstrPos(at))
 	if ne {
 		if g.ProveNE0(goal, at) {
-			return Outcome{true, []string{"proven in " + where}}
+			return Outcome{OK: true, Trail: []string{"proven in " + where}}
 		}
 	} else if g.Prove(goal, at) {
-		return Outcome{true, []string{"proven in " + where}}
+		return Outcome{OK: true, Trail: []string{"proven in " + where}}
 	}
 	if depth >= e.Depth {
-		return Outcome{false, []string{"not proven in " + where + " (lifting depth exhausted)"}}
+		return Outcome{OK: false, Trail: []string{"not proven in " + where + " (lifting depth exhausted)"}}
 	}
 	key := fmt.Sprintf("%p|%s|%v", fn, goal.String(), ne)
 	if seen[key] {
-		return Outcome{false, []string{"not proven in " + where + " (cycle)"}}
+		return Outcome{OK: false, Trail: []string{"not proven in " + where + " (cycle)"}}
 	}
 	seen[key] = true
 	defer delete(seen, key)
@@ -235,11 +238,11 @@ func (e *GuardEngine) Discharge(fn *ssa.Function, goal Poly, ne bool, at ssa.Ins
 		cands = e.candidates(g, goal, at)
 	}
 	if len(cands) == 0 {
-		return Outcome{false, []string{"not proven in " + where + " and not expressible over the function's inputs: " + goal.String() + " >= 0"}}
+		return Outcome{OK: false, Trail: []string{"not proven in " + where + " and not expressible over the function's inputs: " + goal.String() + " >= 0"}}
 	}
 	sites := e.supplySites(fn)
 	if len(sites) == 0 {
-		return Outcome{false, []string{"not proven in " + where + "; " + FuncName(fn) + " receives the value directly from the client: need " + cands[0].String() + condStr(ne)}}
+		return Outcome{OK: false, Trail: []string{"not proven in " + where + "; " + FuncName(fn) + " receives the value directly from the client: need " + cands[0].String() + condStr(ne)}}
 	}
 	var trail []string
 	for _, s := range sites {
@@ -264,10 +267,10 @@ func (e *GuardEngine) Discharge(fn *ssa.Function, goal Poly, ne bool, at ssa.Ins
 			if lastFail == nil {
 				lastFail = []string{fmt.Sprintf("requirement %s%s of %s cannot be expressed at %s@%s", cands[0], condStr(ne), FuncName(fn), FuncName(s.fn), e.p.InstrPos(s.at))}
 			}
-			return Outcome{false, append([]string{"not proven in " + where}, lastFail...)}
+			return Outcome{OK: false, Trail: append([]string{"not proven in " + where}, lastFail...)}
 		}
 	}
-	return Outcome{true, trail}
+	return Outcome{OK: true, Trail: trail}
 }
 
 func condStr(ne bool) string {
@@ -478,12 +481,21 @@ func (e *GuardEngine) liftThroughMemory(fn *ssa.Function, g *GuardCtx, goal Poly
 			tg = envRebase(tg, g, e.Ctx(sfn))
 			o := e.Discharge(sfn, tg, ne, mu, depth+1, seen)
 			if !o.OK {
-				return Outcome{false, append([]string{fmt.Sprintf("needed for keys of map %s used in %s@%s: %s%s", k, FuncName(fn), e.p.InstrPos(at), goal, condStr(ne))}, o.Trail...)}, true
+				out := Outcome{OK: false, Trail: append([]string{fmt.Sprintf("needed for keys of map %s used in %s@%s: %s%s", k, FuncName(fn), e.p.InstrPos(at), goal, condStr(ne))}, o.Trail...)}
+				// a table that stores a computed bool with the key (false = entry not in use): whether
+				// this key is ever used as an index depends on the value, which is not followed
+				if _, isC := mu.Value.(*ssa.Const); !isC {
+					if b, isB := mu.Value.Type().Underlying().(*types.Basic); isB && b.Kind() == types.Bool {
+						out.Unsure = true
+						out.Trail = append(out.Trail, "the entry is stored with a computed bool: keys stored with false need no bound if readers test the value")
+					}
+				}
+				return out, true
 			}
 			trail = append(trail, o.Trail...)
 		}
 		if len(e.t.mapUpd[k]) > 0 {
-			return Outcome{true, trail}, true
+			return Outcome{OK: true, Trail: trail}, true
 		}
 	}
 	if msgRoot != nil {
@@ -509,11 +521,11 @@ func (e *GuardEngine) liftThroughMemory(fn *ssa.Function, g *GuardCtx, goal Poly
 			}
 		}
 		if len(cands) == 0 {
-			return Outcome{false, []string{fmt.Sprintf("not proven in %s@%s and not expressible over the received message", FuncName(fn), e.p.InstrPos(at))}}, true
+			return Outcome{OK: false, Trail: []string{fmt.Sprintf("not proven in %s@%s and not expressible over the received message", FuncName(fn), e.p.InstrPos(at))}}, true
 		}
 		sites := e.sends[msgKey]
 		if len(sites) == 0 {
-			return Outcome{false, []string{"no send site found for channel " + msgKey.String()}}, true
+			return Outcome{OK: false, Trail: []string{"no send site found for channel " + msgKey.String()}}, true
 		}
 		var trail []string
 		for _, s := range sites {
@@ -540,10 +552,10 @@ func (e *GuardEngine) liftThroughMemory(fn *ssa.Function, g *GuardCtx, goal Poly
 				if lastFail == nil {
 					lastFail = []string{"cannot name the sent value at " + e.p.InstrPos(s.at)}
 				}
-				return Outcome{false, append([]string{fmt.Sprintf("needed for the message received in %s@%s: %s%s", FuncName(fn), e.p.InstrPos(at), cands[0], condStr(ne))}, lastFail...)}, true
+				return Outcome{OK: false, Trail: append([]string{fmt.Sprintf("needed for the message received in %s@%s: %s%s", FuncName(fn), e.p.InstrPos(at), cands[0], condStr(ne))}, lastFail...)}, true
 			}
 		}
-		return Outcome{true, trail}, true
+		return Outcome{OK: true, Trail: trail}, true
 	}
 	if fldSym != "" {
 		// only goals in which the field value is the sole non-constant ingredient besides environment
@@ -578,21 +590,21 @@ func (e *GuardEngine) liftThroughMemory(fn *ssa.Function, g *GuardCtx, goal Poly
 					}
 				}
 				if !ok {
-					return Outcome{false, []string{fmt.Sprintf("value stored to %s at %s cannot be substituted into %s", fldKey, e.p.InstrPos(st), goal)}}, true
+					return Outcome{OK: false, Trail: []string{fmt.Sprintf("value stored to %s at %s cannot be substituted into %s", fldKey, e.p.InstrPos(st), goal)}}, true
 				}
 				tg, _ = substPoly(goal, map[string]Poly{fldSym: w}, nil)
 			}
 			tg = envRebase(tg, g, e.Ctx(sfn))
 			o := e.Discharge(sfn, tg, ne, st, depth+1, seen)
 			if !o.OK {
-				return Outcome{false, append([]string{fmt.Sprintf("needed for field %s read in %s@%s: %s%s", fldKey, FuncName(fn), e.p.InstrPos(at), goal, condStr(ne))}, o.Trail...)}, true
+				return Outcome{OK: false, Trail: append([]string{fmt.Sprintf("needed for field %s read in %s@%s: %s%s", fldKey, FuncName(fn), e.p.InstrPos(at), goal, condStr(ne))}, o.Trail...)}, true
 			}
 			trail = append(trail, o.Trail...)
 		}
 		if n == 0 {
 			return Outcome{}, false
 		}
-		return Outcome{true, trail}, true
+		return Outcome{OK: true, Trail: trail}, true
 	}
 	return Outcome{}, false
 }
